@@ -20,12 +20,16 @@ struct colvarvalue {
   colvarvalue(cvm::real const &x) : value_type(1) { real_value = x; }
   colvarvalue(double x) : value_type(1) { real_value = cvm::real(x); }
   operator cvm::real() const { return real_value; }
+  colvarvalue &operator=(double x) { real_value = cvm::real(x); return *this; }
+  colvarvalue &operator=(cvm::real const &x) { real_value = x; return *this; }
   void reset() { real_value = cvm::real(0.0); }
   void type(colvarvalue const &) {}
   void is_derivative() {}
   int type() const { return value_type; }
   colvarvalue(int t) : value_type(t) {}       // colvarvalue(Type): an unset value of that type
   void apply_constraints() {}
+  void set_ones() { real_value = cvm::real(1.0); }      // scalar: 1.0
+  cvm::real sum() const { return real_value; }          // scalar: the value itself
   void set_random() { real_value = sreal_call(CID_USER + 4, real_value.nid()); }
   colvarvalue &operator-=(cvm::real const &b) { real_value -= b; return *this; }
   colvarvalue &operator+=(cvm::real const &b) { real_value += b; return *this; }
